@@ -375,6 +375,19 @@ type builder struct {
 	forceNextTx bool   // the previous file ended with a torn transaction: the next unit must open with BEGIN
 }
 
+func swapCase(x string) string {
+	b := []byte(x)
+	for i, c := range b {
+		switch {
+		case c >= 'a' && c <= 'z':
+			b[i] = c - 32
+		case c >= 'A' && c <= 'Z':
+			b[i] = c + 32
+		}
+	}
+	return string(b)
+}
+
 // nextXid: xids are unique within one run of a master only; a restarted master
 // counts from the same start again, so consecutive transactions (in different
 // files, or here anywhere) may carry the same value, and 0 is a value like any other.
@@ -919,6 +932,10 @@ func stmtTypeOf(sql string) int {
 
 func (b *builder) queryChange(ts uint32, sql string) ExpEvent {
 	db := b.pickDB()
+	if b.s.Chance(1, 12) {
+		// a long statement (a bulk INSERT, a generated ALTER): 1 .. 6 KiB of text
+		sql += " /* " + strings.Repeat("pad ", 256+b.s.N(1300)) + "*/"
+	}
 	sql = sql + " /*" + b.h.newMarker() + "*/"
 	_, cs := b.queryEvent(ts, db, sql)
 	return ExpEvent{StType: stmtTypeOf(sql), IsQuery: true, Timestamp: int64(ts), QDB: db, SQL: sql, Charset: cs, Marker: sql}
@@ -1408,6 +1425,29 @@ func genHistory(s *Stream, o0 *GenOpts) *History {
 			old := h.Tables[s.N(len(h.Tables))]
 			nt := genTable(s, 100+len(h.Tables)+20*len(h.retired), o) // (a name no other table of the history has)
 			nt.ID = old.ID
+			if s.Chance(1, 3) && len(old.Name) < 100 && len(old.DB) < 100 {
+				// ... a table whose name differs from the old one in letter case only
+				nt.DB, nt.Name = old.DB, swapCase(old.Name)
+				if nt.Name == old.Name {
+					nt.DB = swapCase(old.DB)
+				}
+				if nt.DB == old.DB && nt.Name == old.Name {
+					nt.Name = old.Name + "B"
+				}
+				// (the simulated mapper knows tables by name: every table of a history,
+				// retired ones included, needs a name of its own)
+				for clash := true; clash; {
+					clash = false
+					for _, x := range append(append([]*TableDef{}, h.Tables...), h.retired...) {
+						if x != nt && x.DB == nt.DB && x.Name == nt.Name {
+							clash = true
+						}
+					}
+					if clash {
+						nt.Name += "x"
+					}
+				}
+			}
 			if s.Chance(1, 2) {
 				// same shape, other name: nothing but the name tells the two apart
 				nt.Cols = append([]ColDef(nil), old.Cols...)
